@@ -330,6 +330,26 @@ def run(facts, rep, tier):
                     rep.oblige(ok, ("cap", k))
                     if not ok:
                         rep.add(Finding("R10.6", "BDS1,7 flag %s" % k, "capability flag %s is taken from bits %s, expected bit %d" % (k, sorted(fd) if fd is not None else None, bit), None))
+    # ---- R10.7: the gate reads the capability the row has recorded; that record must come from a frame that carries a
+    # transponder capability (the CA field of DF11 / DF17) - a DF18 control field or any other format writing it opens or
+    # closes the Comm-B gate on data that is not a capability report
+    rep.rule("R10.7", "the recorded capability the gate reads is written only by DF11 / DF17 frames (CA field)", "N")
+    from ..absint.query import unchanged
+    n7 = 0
+    seen7 = set()
+    for r in sel(results, "G") + sel(results, "GR"):
+        if r.df is None or r.df in (11, 17) or r.post_update is None or r.pre is None:
+            continue
+        n7 += 1
+        ok = unchanged(r, "capability")
+        rep.oblige(ok, ("capability-writer", r.ctx["label"]))
+        if not ok and (r.df, bool(r.ctx.get("U"))) not in seen7:
+            seen7.add((r.df, bool(r.ctx.get("U"))))
+            rep.add(Finding("R10.7", "capability recorded from a DF%d frame (%s path)" % (r.df, "U" if r.ctx.get("U") else "D"),
+                            "context '%s': a DF%d frame changes the capability the Comm-B gate reads (to %r); DF%d has no CA field, so "
+                            "the gate opens or closes without a capability report and without -R"
+                            % (r.ctx["label"], r.df, r.post_update.fields.get("capability"), r.df), None))
+    rep.instances("R10.7", n7, floor=20, what="contexts of formats without a CA field")
     rep.instances("R10.5", n5, floor=5, what="forced-valid register contexts")
     rep.instances("R10.6", n6, floor=10, what="field decodes checked")
     rep.extra["contexts"] = len(B)
